@@ -149,8 +149,11 @@ Arguments XOrigin {E0} c o.
 
 (* ------------------------------------------------------------------ the guards of the known classes *)
 (* values of the codecs above for which printing a parsed value is NOT stable: exactly these *)
-(* 11 ParsedVcs: a second " [..]" group (the reader takes the first out, the printer puts it last) *)
+(* 11 ParsedVcs: a second " [..]" group (the reader takes the first out, the printer puts it last).
+   Values spanning several lines are left outside as well (the theorem is about one-line values; the
+   stream finds multi-line ones stable too) *)
 Definition vcs_one_group (x : str) : bool :=
+  negb (contains_char 10 x) &&
   match re_find (trim x) with
   | Some (a, _, b) => match re_find (a ++ b) with None => true | Some _ => false end
   | None => true
